@@ -516,7 +516,10 @@ class Node:
             return
 
         if conn.last_read_since > idle_timeout:
-            self.send_dwr(conn)
+            # `stop` may have begun since the test at the top
+            with self._stop_lock:
+                if not self._stopping:
+                    self.send_dwr(conn)
 
     def _collect_stats(self, _thread: StoppableThread):
         interval = time.time()
